@@ -139,6 +139,22 @@ let exec obj line =
         guard (adsr_step_ok s o);
         let s' = adsr_step s o in
         (OAdsr s', adsr_line s'))
+    | OLfo l when op = "tickhash" ->
+      (* n ticks; the lines that would have been printed are folded into an FNV-1a hash (64 bit,
+         computed with OCaml's native 63-bit ints split in two 32-bit halves to stay exact) *)
+      let n = int_of_string (a 0) in
+      let h = ref 0xcbf29ce484222325L in
+      let l = ref l in
+      for _ = 1 to n do
+        guard (lfo_step_ok !l LTick);
+        l := lfo_step !l LTick;
+        String.iter
+          (fun c ->
+            h := Int64.logxor !h (Int64.of_int (Char.code c));
+            h := Int64.mul !h 0x100000001b3L)
+          (lfo_line !l)
+      done;
+      (OLfo !l, Printf.sprintf "h=%016Lx acc=%d" !h (int_of_z !l.pa_acc))
     | OLfo l -> (
       let o =
         match op with
